@@ -1,6 +1,30 @@
-import RzilVerif.Model.CompileH
+import RzilVerif.Lemmas.CallSim
+import RzilVerif.Lemmas.CallNest
 /-!
-# C08 — first version: facts about the hybrid machinery of the lowering model (full theorems in progress)
+# C08 — sub-routine calls
+
+Property: "A call to a registered sub-routine behaves like the C call: each value argument is converted to its
+parameter type, register/packet/enum arguments are passed through as operands, the callee's compiled body computes
+what its C source computes, and the caller receives the return value converted to the declared return type.  Apart
+from its return value and its by-reference register operands the callee changes nothing the caller can observe - in
+particular it never overwrites a caller variable or a caller temporary that is still live - and this holds for
+nested calls and for sub-routines registered through the public API at any time."
+
+What is proved here, on the lowering model `compileExprH`/`compileArgsH` (`Model/CompileH.lean`), the IL semantics
+`execIL` (`Model/ILSem.lean`) and the C semantics `evalCH` (`Model/CSemH.lean`):
+
+1. `args_length`, `args_converted`        — argument conversion (repaired lowering `Cfg.fixed`).
+2. `call_entry`, `return_value_IL`, `return_value_C`, `return_value_agree`, `return_roundtrip`, `return_stmt_IL`,
+   `return_then_read`                      — the pending entry of a call and the return conversion.
+3. `frame`, `frame_locals`, `call_preserves_disjoint_locals`, `call_restores_params`, `call_regs_mem`, `C_call_isolates`
+                                           — isolation, the part that HOLDS: nothing outside the syntactic footprint
+                                             `writes`/`writtenLocals` (`Model/CallFrame.lean`) changes.
+4. `witness_IL`, `witness_C`, `witness_not_disjoint`, `witness_ret_val_clobbered`, `call_value_protected`,
+   `later_call_tmp_ne`                     — isolation, the part that is VIOLATED (flat namespace): a callee body that
+                                             sets `h_tmp0` overwrites the caller's live temporary; what IS protected.
+5. `callEntry_pulls`, `nested_call`        — nested calls: render order.
+6. `call_correct_builtin`, `call_correct_sub` (instances `clz32_call_correct`, `id32_call_correct`) — end-to-end simulation of a call with side-effect free arguments, the
+                                             callee's body assumed to simulate its C meaning.
 -/
 namespace Rzil
 
@@ -12,10 +36,543 @@ theorem popPending_nil_C08 (leaves : List String) : popPending [] leaves = ([], 
     simp only [popPending, List.foldl_cons, List.find?_nil] at ih ⊢
     exact ih
 
-/-- A postfix hybrid sets its temporary BEFORE executing (old value), a call AFTER (return value). -/
-example : (Pend.render { tmp := "h_tmp0", deps := [], exec := .setl "i" (.inc (.varl "i") 32), setTmp := .setl "h_tmp0" (.varl "i"), setFirst := true, gcc := false })
-    = .seqn [.setl "h_tmp0" (.varl "i"), .setl "i" (.inc (.varl "i") 32)] := rfl
-example : (Pend.render { tmp := "h_tmp0", deps := [], exec := .call "hex_f" [], setTmp := .setl "h_tmp0" (.unsigned 32 (.varl "ret_val")), setFirst := false, gcc := false })
-    = .seqn [.call "hex_f" [], .setl "h_tmp0" (.unsigned 32 (.varl "ret_val"))] := rfl
+namespace C08
 
+open C05 (Sim)
+
+/-! ## fixtures for the non-vacuity examples and the witnesses -/
+
+def u32 : CT := ⟨false, 32⟩
+def u64 : CT := ⟨false, 64⟩
+def envF : CEnv := { assigned := [], cfg := Cfg.fixed }
+def st0 : HSt := { imms := [], live := [], hyb := 0, pending := [] }
+def noMacros : MacroSem := fun _ _ => none
+
+def isOk {ε α : Type} : Except ε α → Bool
+  | .ok _ => true
+  | .error _ => false
+
+theorem isOk_elim {ε α : Type} {x : Except ε α} (h : isOk x = true) : ∃ a, x = .ok a := by
+  cases x with
+  | ok a => exact ⟨a, rfl⟩
+  | error e => simp [isOk] at h
+
+def finalLocal (n : String) : Except Stuck MState → Option Val
+  | .ok σ => lookupS n σ.locals
+  | .error _ => none
+
+/-- one normalisation step of the bundled `clz32` -/
+def clzStep (m : Int) (k : Int) : ILEffect :=
+  .branch (.bin .ule (.varl "clz32_x") (.const false 32 m))
+    (.seqn [.setl "clz32_n" (.bin .add (.varl "clz32_n") (.const false 32 k)),
+            .setl "clz32_x" (.bin .shiftl0 (.varl "clz32_x") (.const false 32 k))])
+    .empty
+
+/-- The compiled body of the bundled `clz32` (`Resources/Hexagon/sub_routines.json`; hand-transcribed in the shape the
+    compiler emits): the parameter is a borrowed pure, the result goes to `ret_val`, and the postfix increment
+    `clz32_n++` of its last step is a hybrid of the BODY's own transformer, i.e. it sets `h_tmp0`. -/
+def clz32Body : ILEffect :=
+  .seqn [
+    .setl "clz32_x" (.param "t"),
+    .branch (.bin .eq (.varl "clz32_x") (.const false 32 0))
+      (.setl "ret_val" (.const false 64 32))
+      (.seqn [
+        .setl "clz32_n" (.const false 32 0),
+        clzStep 0x0000ffff 16, clzStep 0x00ffffff 8, clzStep 0x0fffffff 4, clzStep 0x3fffffff 2,
+        .branch (.bin .ule (.varl "clz32_x") (.const false 32 0x7fffffff))
+          (.seqn [.setl "h_tmp0" (.varl "clz32_n"), .setl "clz32_n" (.inc (.varl "clz32_n") 32)])
+          .empty,
+        .setl "ret_val" (.cast 64 .bfalse (.varl "clz32_n"))])]
+
+def wSubs : SubEnv := [("clz32", (["t"], clz32Body))]
+
+/-- a state with `a = 0x10000` (15 leading zeros) and `b = 1` (31 leading zeros) -/
+def σ0 : MState := { (default : MState) with locals := [("a", .bv 32 0x00010000), ("b", .bv 32 1)] }
+
+/-- a variable bound to a value of its type is a good argument (`ArgsOK` is satisfiable) -/
+theorem argsOK_var {ms : MacroSem} {csubs : CSubEnv} {env : CEnv} {σ : MState} {n : String} {t : CT}
+    {x : BitVec t.width} {as : List CExpr} {vs : List Val}
+    (hl : lookupS n σ.locals = some (.bv t.width x)) (hrest : ArgsOK ms csubs env σ as vs) :
+    ArgsOK ms csubs env σ (.var n t :: as) (.bv t.width x :: vs) := by
+  refine ArgsOK.cons ⟨1, ?_⟩ ?_ hrest
+  · intro f hf
+    obtain ⟨f', rfl⟩ : ∃ f', f = f' + 1 := ⟨f - 1, by omega⟩
+    rw [evalCH]
+    simp only [hl]
+  · intro st ce st' h
+    simp only [compileExprH, compileExpr, bind, Except.bind] at h
+    injection h with h; injection h with h _; subst h
+    exact C05.Sim.of_bv (t := t) (by simp [CT.toVT, VT.hasFlag, VT.gBOOL]) (by simp only [evalPure, hl]) rfl rfl
+
+theorem argsOK_a : ArgsOK noMacros [] envF σ0 [.var "a" u32] [.bv 32 0x00010000] :=
+  argsOK_var (t := u32) (by decide) ArgsOK.nil
+
+/-! ## 1. argument conversion -/
+
+/-- **C08.1a** one compiled argument per argument; compilation fails ("arity") if there are fewer parameters. -/
+theorem args_length {env : CEnv} {st st' : HSt} {args : List CExpr} {params : List CT} {ils : List ILPure}
+    (h : compileArgsH env st args params = .ok (ils, st')) :
+    ils.length = args.length ∧ args.length ≤ params.length :=
+  compileArgsH_length h
+
+example : compileArgsH envF st0 [.var "a" u32] [u64] = .ok ([.cast 64 .bfalse (.varl "a")], st0) := rfl
+
+/-- **C08.1b** Under the repaired lowering, if every argument's compiled form simulates its C value (`ArgsOK`:
+    hybrid-free arguments), the compiled arguments evaluate (`evalPures`) to exactly the values
+    `convC (typeOfC a) p v` that `evalCHArgs` passes to the callee (`convArgs` spells them out).
+    Side condition: no parameter is 1 bit wide (`sim_convTo`). -/
+theorem args_converted {ms : MacroSem} {csubs : CSubEnv} {env : CEnv} {σ : MState} (hcfg : env.cfg = Cfg.fixed)
+    {args : List CExpr} {vCs : List Val} (hargs : ArgsOK ms csubs env σ args vCs)
+    {st st' : HSt} {params : List CT} {ils : List ILPure}
+    (hc : compileArgsH env st args params = .ok (ils, st')) (hp : ∀ p ∈ params, p.width ≠ 1) :
+    ∃ vs, convArgs args params vCs = .ok vs ∧ evalPures ms σ [] ils = .ok vs ∧
+      ∃ F, ∀ f, F ≤ f → evalCHArgs ms csubs f σ args params = .ok (vs, σ) :=
+  compileArgsH_sim hcfg hargs hc hp
+
+/-- non-vacuity: `f(a)` with `uint32_t a`, parameter type `uint64_t` -/
+example : envF.cfg = Cfg.fixed ∧ ArgsOK noMacros [] envF σ0 [.var "a" u32] [.bv 32 0x00010000] ∧
+    compileArgsH envF st0 [.var "a" u32] [u64] = .ok ([.cast 64 .bfalse (.varl "a")], st0) ∧
+    (∀ p ∈ [u64], p.width ≠ 1) :=
+  ⟨rfl, argsOK_a, rfl, by decide⟩
+
+/-! ## 2. the entry of a call and the return conversion -/
+
+/-- **C08.2a** The `.call` case creates one pending entry `P = callEntry st1 name cargs ret`, the last of the list:
+    it calls `hex_<name>` on the compiled arguments, THEN sets its fresh temporary to
+    `SIGNED/UNSIGNED(ret.width, VARL "ret_val")` (chosen by the signedness of the return type); the consumer gets
+    `VARL h_tmpN`, typed with the declared return type. -/
+theorem call_entry {env : CEnv} {st st' : HSt} {name : String} {args : List CExpr} {ret : CT} {params : List CT} {ce : CE}
+    (h : compileExprH env st (.call name args ret params) = .ok (ce, st')) :
+    ∃ (cargs : List ILPure) (st1 : HSt) (P : Pend) (rest : List Pend),
+      compileArgsH env st args params = .ok (cargs, st1) ∧ P = callEntry st1 name cargs ret ∧
+      st'.pending = rest ++ [P] ∧ rest = (popPending st1.pending (tmpsOfPures cargs)).2 ∧ st'.hyb = st1.hyb + 1 ∧
+      P.tmp = tmpName st1.hyb ∧
+      P.exec = .call ("hex_" ++ name) cargs ∧
+      P.setTmp = .setl P.tmp (if ret.signed then .signed ret.width (.varl "ret_val")
+                              else .unsigned ret.width (.varl "ret_val")) ∧
+      P.setFirst = false ∧
+      P.render = mkSeq (P.deps ++ [.seqn [P.exec, P.setTmp]]) ∧
+      ce.il = .varl P.tmp ∧ ce.ty = ret.toVT := by
+  obtain ⟨cargs, st1, h1, rfl, rfl⟩ := compileExprH_call h
+  exact ⟨cargs, st1, _, _, h1, rfl, rfl, rfl, rfl, rfl, rfl, rfl, rfl, rfl, rfl, rfl⟩
+
+example : ∃ ce st', compileExprH envF st0 (.call "clz32" [.var "a" u32] u32 [u32]) = .ok (ce, st') :=
+  ⟨_, _, compileExprH_call_of (show compileArgsH envF st0 [.var "a" u32] [u32] = .ok ([.varl "a"], st0) from rfl)⟩
+
+/-- **C08.2b** IL side: if the callee left `ret_val ↦ bv 64 r`, executing `setTmp` leaves
+    `h_tmpN ↦ bv ret.width (r truncated)` (return types of at most 64 bit), changes no other local, and the value
+    handed to the consumer simulates that C value at the return type. -/
+theorem return_value_IL {ms : MacroSem} {subs : SubEnv} {f : Nat} {σ : MState} (st1 : HSt) (name : String)
+    (cargs : List ILPure) (ret : CT) {r : BitVec 64} (h : lookupS "ret_val" σ.locals = some (.bv 64 r))
+    (hw : ret.width ≤ 64) :
+    ∃ σ', execIL ms subs (f+1) (callEntry st1 name cargs ret).setTmp σ = .ok σ' ∧
+      lookupS (tmpName st1.hyb) σ'.locals = some (.bv ret.width (BitVec.ofNat ret.width r.toNat)) ∧
+      (∀ n, n ≠ tmpName st1.hyb → lookupS n σ'.locals = lookupS n σ.locals) ∧
+      Sim ms σ' { il := .varl (tmpName st1.hyb), ty := ret.toVT, kind := .plain } ret
+        (.bv ret.width (BitVec.ofNat ret.width r.toNat)) := by
+  refine ⟨_, exec_setTmp st1 name cargs ret h, ?_, ?_, ?_⟩
+  · rw [convBits_trunc _ _ _ hw]; exact C05.lookupS_setLocal_self _ _ _
+  · intro n hn; exact C05.lookupS_setLocal_ne hn _ _
+  · rw [convBits_trunc _ _ _ hw]; exact sim_callValue _ _ _
+
+example : lookupS "ret_val" ({ σ0 with locals := [("ret_val", .bv 64 15)] } : MState).locals = some (.bv 64 15) ∧
+    u32.width ≤ 64 := ⟨by decide, by decide⟩
+
+/-- **C08.2c** C side: a bundled routine yields `bv ret.width (ofNat ret.width …)`; the state is the one after the arguments. -/
+theorem return_value_C {ms : MacroSem} {csubs : CSubEnv} {f : Nat} {σ σ' : MState} {name : String}
+    {args : List CExpr} {ret : CT} {params : List CT} {vs : List Val} {v : Val}
+    (hargs : evalCHArgs ms csubs f σ args params = .ok (vs, σ')) (hsub : lookupS name csubs = none)
+    (hb : builtinSub name vs = some v) :
+    evalCH ms csubs (f+1) σ (.call name args ret params) =
+      .ok (.bv ret.width (BitVec.ofNat ret.width (natOfVal v)), σ') :=
+  evalCH_call_builtin hargs hsub hb
+
+example : evalCHArgs noMacros [] 2 σ0 [.var "a" u32] [u32] = .ok ([.bv 32 0x00010000], σ0) ∧
+    lookupS "clz32" ([] : CSubEnv) = none ∧ builtinSub "clz32" [.bv 32 0x00010000] = some (.bv 32 15) :=
+  ⟨rfl, rfl, by decide +kernel⟩
+
+/-- **C08.2d** the two sides agree when the callee stored the routine's value (as a 64-bit pattern) in `ret_val` -/
+theorem return_value_agree (sg : Bool) (ret : CT) (n : Nat) (hw : ret.width ≤ 64) :
+    convBits ⟨sg, 64⟩ ret (BitVec.ofNat 64 n) = BitVec.ofNat ret.width n :=
+  convBits_ofNat64 sg ret n hw
+
+/-- **C08.2e** `return e;` stores `e` widened to 64 bit (`compileStmtH`, case `.ret`), the caller narrows with
+    `SIGNED/UNSIGNED`: together the C conversion of `e`'s value to the declared return type. -/
+theorem return_roundtrip (t ret : CT) (sg : Bool) {n : Nat} (x : BitVec n) (hn : n ≤ 64) (hr : ret.width ≤ 64) :
+    convBits ⟨sg, 64⟩ ret (convBits t ⟨false, 64⟩ x) = convBits t ret x :=
+  convBits_via_u64 t ret sg x hn hr
+
+example : (8 : Nat) ≤ 64 ∧ (⟨true, 16⟩ : CT).width ≤ 64 := by decide
+
+example : u32.width ≤ 64 := by decide
+
+/-- **C08.2f** the callee's `return e;` under the repaired lowering: `ret_val` receives the value of `e` converted to
+    `uint64_t` (`e` side-effect free: its compiled form simulates its value `x`) -/
+theorem return_stmt_IL {ms : MacroSem} {subs : SubEnv} {env : CEnv} {σ : MState} {st st' : HSt} {e : CExpr}
+    {eff : ILEffect} {bare : List String} {f : Nat} {x : BitVec (typeOfC e).width}
+    (hcfg : env.cfg = Cfg.fixed)
+    (h : compileStmtH env st (.ret e) = .ok (some eff, bare, st'))
+    (hsim : ∀ ce st1, compileExprH env st e = .ok (ce, st1) → Sim ms σ ce (typeOfC e) (.bv (typeOfC e).width x)) :
+    execIL ms subs (f+1) eff σ =
+      .ok { σ with locals := setLocal σ.locals "ret_val" (.bv 64 (convBits (typeOfC e) ⟨false, 64⟩ x)) } :=
+  ret_stmt_sets_ret_val hcfg h hsim
+
+/-- **C08.2g** callee's `return e;` followed by the caller's `setTmp`: the call's temporary holds the value of `e`
+    converted to the declared return type (types of at most 64 bit), as C11 6.8.6.4p3 asks -/
+theorem return_then_read {ms : MacroSem} {subs : SubEnv} {env : CEnv} {σ σ1 σ2 : MState} {st st' : HSt} {e : CExpr}
+    {eff : ILEffect} {bare : List String} {f g : Nat} {x : BitVec (typeOfC e).width}
+    (st1 : HSt) (name : String) (cargs : List ILPure) (ret : CT)
+    (hcfg : env.cfg = Cfg.fixed)
+    (h : compileStmtH env st (.ret e) = .ok (some eff, bare, st'))
+    (hsim : ∀ ce s, compileExprH env st e = .ok (ce, s) → Sim ms σ ce (typeOfC e) (.bv (typeOfC e).width x))
+    (he : (typeOfC e).width ≤ 64) (hr : ret.width ≤ 64)
+    (h1 : execIL ms subs (f+1) eff σ = .ok σ1)
+    (h2 : execIL ms subs (g+1) (callEntry st1 name cargs ret).setTmp σ1 = .ok σ2) :
+    lookupS (tmpName st1.hyb) σ2.locals = some (.bv ret.width (convBits (typeOfC e) ret x)) := by
+  rw [ret_stmt_sets_ret_val hcfg h hsim] at h1
+  injection h1 with h1; subst h1
+  rw [exec_setTmp st1 name cargs ret (C05.lookupS_setLocal_self _ _ _)] at h2
+  injection h2 with h2; subst h2
+  rw [convBits_via_u64 _ _ _ _ he hr]
+  exact C05.lookupS_setLocal_self _ _ _
+
+/-- non-vacuity: `return a;` with `uint32_t a` -/
+example : ∃ eff bare st', compileStmtH envF st0 (.ret (.var "a" u32)) = .ok (some eff, bare, st') ∧
+    (∀ ce s, compileExprH envF st0 (.var "a" u32) = .ok (ce, s) →
+      Sim noMacros σ0 ce (typeOfC (.var "a" u32)) (.bv (typeOfC (.var "a" u32)).width (0x00010000 : BitVec 32))) := by
+  refine ⟨_, _, _, rfl, ?_⟩
+  have := argsOK_a
+  cases this with
+  | cons _ hs _ => exact hs st0
+
+/-! ## 3. the frame lemma: isolation, the part that holds -/
+
+/-- **C08.3 (frame lemma)** for ALL effects, fuels and states: `execIL` changes no resource outside the syntactic
+    footprint `writes subs fuel e` (locals set by SETL - transitively through the bodies of called routines -,
+    registers written by WRITE_REG, memory by STOREW), restores `params`, keeps `cur`, `imm`, `pktAddr`. -/
+theorem frame {ms : MacroSem} {subs : SubEnv} {f : Nat} {e : ILEffect} {σ σ' : MState}
+    (h : execIL ms subs f e σ = .ok σ') : Frame (writes subs f e) σ σ' :=
+  execIL_frame h
+
+/-- the locals part, as asked: a local that `e` does not write (transitively) has the same lookup afterwards -/
+theorem frame_locals {ms : MacroSem} {subs : SubEnv} {f : Nat} {e : ILEffect} {σ σ' : MState}
+    (h : execIL ms subs f e σ = .ok σ') (n : String) (hn : n ∉ writtenLocals subs f e) :
+    lookupS n σ'.locals = lookupS n σ.locals :=
+  (execIL_frame h).locals n (fun hm => hn (mem_writtenLocals.mpr hm))
+
+/-- … also judged with any larger fuel for the footprint (it is monotone) -/
+theorem frame_locals_fuel {ms : MacroSem} {subs : SubEnv} {f F : Nat} {e : ILEffect} {σ σ' : MState}
+    (h : execIL ms subs f e σ = .ok σ') (hF : f ≤ F) (n : String) (hn : n ∉ writtenLocals subs F e) :
+    lookupS n σ'.locals = lookupS n σ.locals :=
+  (execIL_frame h).locals n (fun hm => hn (mem_writtenLocals.mpr (writes_mono hF e hm)))
+
+/-- `params` are restored after a call (after any effect) -/
+theorem call_restores_params {ms : MacroSem} {subs : SubEnv} {f : Nat} {e : ILEffect} {σ σ' : MState}
+    (h : execIL ms subs f e σ = .ok σ') : σ'.params = σ.params :=
+  (execIL_frame h).params
+
+/-- registers and memory change only by the body's own `WRITE_REG`/`STOREW` -/
+theorem call_regs_mem {ms : MacroSem} {subs : SubEnv} {f : Nat} {σ σ' : MState} {name : String}
+    {args : List ILPure} {ps : List String} {body : ILEffect}
+    (h : execIL ms subs (f+1) (.call ("hex_" ++ name) args) σ = .ok σ')
+    (hsub : lookupS name subs = some (ps, body)) :
+    (∀ k, k ∉ writtenRegs subs f body → σ'.new k = σ.new k ∧ σ'.written k = σ.written k) ∧
+    (storesMem subs f body = false → σ'.mem = σ.mem ∧ σ'.stores = σ.stores) :=
+  call_preserves_regs_mem h hsub
+
+/-- non-vacuity of the frame lemma and of the corollary (stated in `Lemmas/CallSim.lean`:
+    `call_preserves_disjoint_locals`): calling the `clz32` body from `σ0` succeeds; it writes none of
+    `a`, `b`, `r`, `h_tmp1`, no register, no memory -/
+example : isOk (execIL noMacros wSubs 20 (.call "hex_clz32" [.varl "b"]) σ0) = true ∧
+    calleeDisjoint wSubs 19 "clz32" ["a", "b", "r", "h_tmp1"] = true ∧
+    writtenRegs wSubs 19 clz32Body = [] ∧ storesMem wSubs 19 clz32Body = false := by
+  refine ⟨by decide +kernel, by decide +kernel, by decide +kernel, by decide +kernel⟩
+
+/-- instance of the corollary: the call of `clz32` leaves `a`, `b`, `r`, `h_tmp1` alone -/
+theorem clz32_keeps_disjoint {σ' : MState}
+    (h : execIL noMacros wSubs 20 (.call ("hex_" ++ "clz32") [.varl "b"]) σ0 = .ok σ') :
+    ∀ n ∈ ["a", "b", "r", "h_tmp1"], lookupS n σ'.locals = lookupS n σ0.locals :=
+  call_preserves_disjoint_locals' h (by decide +kernel)
+
+example : isOk (execIL noMacros wSubs 20 (.call ("hex_" ++ "clz32") [.varl "b"]) σ0) = true := by decide +kernel
+
+/-- the C side of the isolation clause holds without any side condition: a call changes no local of the caller
+    beyond what evaluating its arguments does (`evalCH`, case `.call`: the routine runs in a scope of its own) -/
+theorem C_call_isolates {ms : MacroSem} {csubs : CSubEnv} {f : Nat} {σ σ2 : MState} {name : String}
+    {args : List CExpr} {ret : CT} {params : List CT} {v : Val}
+    (h : evalCH ms csubs (f+1) σ (.call name args ret params) = .ok (v, σ2)) :
+    ∃ vs σ1, evalCHArgs ms csubs f σ args params = .ok (vs, σ1) ∧ σ2.locals = σ1.locals ∧ σ2.params = σ1.params :=
+  evalCH_call_locals h
+
+example : isOk (evalCH noMacros [] 3 σ0 (.call "clz32" [.var "a" u32] u32 [u32])) = true := by decide +kernel
+
+/-! ## 4. the violated clause: flat namespace -/
+
+/-- `uint32_t r = clz32(a) + clz32(b);` -/
+def callerProg : List CStmt :=
+  [.decl u32 "r" (some (.bin "+" (.call "clz32" [.var "a" u32] u32 [u32]) (.call "clz32" [.var "b" u32] u32 [u32])))]
+
+def runILH (cfg : Cfg) (p : List CStmt) (subs : SubEnv) (fuel : Nat) (σ : MState) : Except Stuck MState :=
+  match compileProgH cfg p with
+  | .ok eff => execIL noMacros subs fuel eff σ
+  | .error _ => .error (.undef "compile")
+
+/-- **C08.4 (witness, IL)** The caller keeps the value of `clz32(a)` (15) in its temporary `h_tmp0` while the second
+    call runs; the body of `clz32` (its own `clz32_n++`) sets `h_tmp0` to 30: the caller's live temporary is
+    overwritten and `r` becomes 30 + 31 = 61.  Both configurations of the lowering. -/
+theorem witness_IL :
+    finalLocal "r" (runILH Cfg.asCode callerProg wSubs 40 σ0) = some (.bv 32 61) ∧
+    finalLocal "r" (runILH Cfg.fixed callerProg wSubs 40 σ0) = some (.bv 32 61) ∧
+    finalLocal "h_tmp0" (runILH Cfg.asCode callerProg wSubs 40 σ0) = some (.bv 32 30) := by
+  refine ⟨by decide +kernel, by decide +kernel, by decide +kernel⟩
+
+/-- **C08.4 (witness, C)** C isolates the callee: `r = 15 + 31 = 46`. -/
+theorem witness_C : finalLocal "r" (execCHs noMacros [] 40 callerProg σ0) = some (.bv 32 46) := by
+  decide +kernel
+
+/-- the side condition of `call_preserves_disjoint_locals` is what fails: `h_tmp0` is in the callee's footprint
+    (and so is `ret_val`, which every callee sets) -/
+theorem witness_not_disjoint :
+    calleeDisjoint wSubs 19 "clz32" ["h_tmp0"] = false ∧ "h_tmp0" ∈ writtenLocals wSubs 19 clz32Body ∧
+    "ret_val" ∈ writtenLocals wSubs 19 clz32Body := by
+  refine ⟨by decide +kernel, by decide +kernel, by decide +kernel⟩
+
+/-- `ret_val` is shared too: after `clz32(a)` it holds 15, the second call overwrites it with 31 … -/
+theorem witness_ret_val_clobbered :
+    finalLocal "ret_val" (execIL noMacros wSubs 20 (.call "hex_clz32" [.varl "a"]) σ0) = some (.bv 64 15) ∧
+    finalLocal "ret_val" (runILH Cfg.asCode callerProg wSubs 40 σ0) = some (.bv 64 31) := by
+  refine ⟨by decide +kernel, by decide +kernel⟩
+
+/-- … which is harmless, because of the render order (`call_entry`: `P.render = mkSeq (deps ++ [SEQN [call, setTmp]])`):
+    each call's value is copied to the call's OWN temporary directly after the call.  What is protected, precisely:
+    once `h_tmpN` is set, any later effect `e` - another call included, although it overwrites `ret_val` - leaves it
+    alone PROVIDED `h_tmpN` is not in the footprint of `e`, i.e. the later callee's body (transitively) uses no
+    temporary of that name.  (`witness_not_disjoint`: the bundled bodies do.) -/
+theorem call_value_protected {ms : MacroSem} {subs : SubEnv} {f : Nat} {e : ILEffect} {σ1 σ2 : MState} {k : Nat} {v : Val}
+    (hset : lookupS (tmpName k) σ1.locals = some v)
+    (h : execIL ms subs f e σ1 = .ok σ2) (hk : tmpName k ∉ writtenLocals subs f e) :
+    lookupS (tmpName k) σ2.locals = some v := by
+  rw [frame_locals h _ hk]; exact hset
+
+/-- the second call of the witness, run on a state where the first call's value sits in `h_tmp1` instead: kept -/
+example : ∃ σ2, execIL noMacros wSubs 20 (.call "hex_clz32" [.varl "b"])
+      { σ0 with locals := (tmpName 1, .bv 32 15) :: σ0.locals } = .ok σ2 ∧
+    tmpName 1 ∉ writtenLocals wSubs 20 (.call "hex_clz32" [.varl "b"]) := by
+  obtain ⟨σ2, h⟩ := isOk_elim (x := execIL noMacros wSubs 20 (.call "hex_clz32" [.varl "b"])
+      { σ0 with locals := (tmpName 1, .bv 32 15) :: σ0.locals }) (by decide +kernel)
+  exact ⟨σ2, h, by decide +kernel⟩
+
+/-- two calls never share their temporary: a call compiled later (from any extension of the state the first one
+    left) gets another `h_tmpN` -/
+theorem later_call_tmp_ne {env : CEnv} {st st' st2 st3 : HSt} {n1 n2 : String} {a1 a2 : List CExpr} {r1 r2 : CT}
+    {p1 p2 : List CT} {ce1 ce2 : CE}
+    (h1 : compileExprH env st (.call n1 a1 r1 p1) = .ok (ce1, st'))
+    (hext : Ext st' st2)
+    (h2 : compileExprH env st2 (.call n2 a2 r2 p2) = .ok (ce2, st3)) : ce1.il ≠ ce2.il := by
+  obtain ⟨c1, s1, _, rfl, rfl⟩ := compileExprH_call h1
+  obtain ⟨c2, s2, ha2, rfl, rfl⟩ := compileExprH_call h2
+  have h3 := (compileArgsH_ext env a2 _ _ _ _ ha2).hyb
+  have h4 := hext.hyb
+  simp only at h4
+  intro he
+  injection he with he
+  have := tmpName_inj he
+  omega
+
+/-- non-vacuity: the two calls of `callerProg` -/
+example : ∃ ce1 st' ce2 st3, compileExprH envF st0 (.call "clz32" [.var "a" u32] u32 [u32]) = .ok (ce1, st') ∧
+    Ext st' st' ∧ compileExprH envF st' (.call "clz32" [.var "b" u32] u32 [u32]) = .ok (ce2, st3) :=
+  ⟨_, _, _, _, compileExprH_call_of (show compileArgsH envF st0 [.var "a" u32] [u32] = .ok ([.varl "a"], st0) from rfl),
+    Ext.refl _, compileExprH_call_of rfl⟩
+
+/-! ## 5. nested calls -/
+
+/-- **C08.5** `f(pre…, g(gargs…))` compiled from a state satisfying the naming invariant `PInv` (every pending entry
+    is named `h_tmp<k>`, `k` below the counter: true initially, kept by `compileExprH`/`compileArgsH` -
+    `compileExprH_ext`): the entry of `g` does not stay pending on its own, its rendered sequence stands inside
+    the entry of `f` in front of `SEQN [hex_f(…), SETL h_tmpN …]`.  For all argument lists `pre`, `gargs`.
+    (General position: `callEntry_pulls` in `Lemmas/CallPend.lean`, for any pending entry whose temporary an
+    argument uses.) -/
+theorem nested_call {env : CEnv} {st st' : HSt} {f g : String} {pre gargs : List CExpr} {gret fret : CT}
+    {gparams fparams : List CT} {ce : CE} (hinv : PInv st)
+    (h : compileExprH env st (.call f (pre ++ [.call g gargs gret gparams]) fret fparams) = .ok (ce, st')) :
+    ∃ (stp stg st1 : HSt) (gc fc : List ILPure) (pre' post' : List ILEffect),
+      compileArgsH env stp gargs gparams = .ok (gc, stg) ∧
+      compileArgsH env st (pre ++ [.call g gargs gret gparams]) fparams = .ok (fc, st1) ∧
+      st'.pending = (popPending st1.pending (tmpsOfPures fc)).2 ++ [callEntry st1 f fc fret] ∧
+      callEntry stg g gc gret ∉ (popPending st1.pending (tmpsOfPures fc)).2 ∧
+      (callEntry st1 f fc fret).render =
+        mkSeq (pre' ++ (callEntry stg g gc gret).render :: post' ++
+          [.seqn [.call ("hex_" ++ f) fc, .setl (tmpName st1.hyb) (retRead fret)]]) :=
+  nested_call_order hinv h
+
+/-- non-vacuity: the nesting `clz32(clz32(a))` (as in `clo32(x) = clz32(~x)` called with a call) from the initial state -/
+example : PInv st0 ∧ ∃ ce st', compileExprH envF st0
+    (.call "clz32" ([] ++ [.call "clz32" [.var "a" u32] u32 [u32]]) u32 [u32]) = .ok (ce, st') := by
+  refine ⟨PInv.init _ _ _, ?_⟩
+  obtain ⟨⟨ce, st'⟩, h⟩ := isOk_elim (x := compileExprH envF st0
+    (.call "clz32" ([] ++ [.call "clz32" [.var "a" u32] u32 [u32]]) u32 [u32])) (by decide +kernel)
+  exact ⟨ce, st', h⟩
+
+/-- the names in a rendered list of the shape
+    `[SEQN [SEQN [f1(VARL a1), SETL t1 (UNSIGNED 32 (VARL r1))], SEQN [f2(VARL a2), SETL t2 (UNSIGNED 32 (VARL r2))]]]` -/
+def nestedShape : Except String (CE × HSt) → Option (List String)
+  | .ok (_, st') =>
+    match st'.pending.map Pend.render with
+    | [.seqn [.seqn [.call f1 [.varl a1], .setl t1 (.unsigned 32 (.varl r1))],
+              .seqn [.call f2 [.varl a2], .setl t2 (.unsigned 32 (.varl r2))]]] =>
+        some [f1, a1, t1, r1, f2, a2, t2, r2]
+    | _ => none
+  | .error _ => none
+
+/-- … and what is left pending renders as one sequence: the inner call and its copy first, then the outer call
+    on the inner temporary -/
+example : nestedShape (compileExprH envF st0
+    (.call "clz32" ([] ++ [.call "clz32" [.var "a" u32] u32 [u32]]) u32 [u32])) =
+    some ["hex_clz32", "a", "h_tmp0", "ret_val", "hex_clz32", "h_tmp0", "h_tmp1", "ret_val"] := by
+  decide +kernel
+
+/-! ## 6. end-to-end -/
+
+/-- **C08.6a** (stretch) A call with side-effect free arguments to a bundled routine, repaired lowering: if the
+    routine's compiled body, started on the converted arguments, leaves in `ret_val` the routine's closed-form value
+    (modulo the width of the return type) and writes no register or memory, then executing the rendered pair
+    `SEQN [hex_<name>(args), SETL h_tmpN …]` hands the consumer exactly the value `evalCH` computes for the call,
+    and (`CallPost`) the two final states agree on registers, memory, and on every local outside the callee's
+    footprint (C leaves ALL the caller's locals alone). -/
+theorem call_correct_builtin {ms : MacroSem} {csubs : CSubEnv} {subs : SubEnv} {env : CEnv} {σ σb : MState} {st st' : HSt}
+    {name : String} {args : List CExpr} {ret : CT} {params : List CT} {ce : CE} {vCs vs : List Val}
+    {ps : List String} {body : ILEffect} {fB : Nat} {r : BitVec 64} {v : Val}
+    (hcfg : env.cfg = Cfg.fixed)
+    (hc : compileExprH env st (.call name args ret params) = .ok (ce, st'))
+    (hp : ∀ p ∈ params, p.width ≠ 1)
+    (hargs : ArgsOK ms csubs env σ args vCs)
+    (hvs : convArgs args params vCs = .ok vs)
+    (hsub : lookupS name subs = some (ps, body))
+    (hbody : execIL ms subs fB body { σ with params := ps.zip vs } = .ok σb)
+    (hret : lookupS "ret_val" σb.locals = some (.bv 64 r))
+    (hcsub : lookupS name csubs = none) (hb : builtinSub name vs = some v)
+    (hw : ret.width ≤ 64)
+    (hval : BitVec.ofNat ret.width r.toNat = BitVec.ofNat ret.width (natOfVal v))
+    (hnew : σb.new = σ.new) (hwr : σb.written = σ.written) (hmem : σb.mem = σ.mem) (hst : σb.stores = σ.stores) :
+    ∃ (P : Pend) (rest : List Pend) (σ' : MState) (xC : BitVec ret.width),
+      st'.pending = rest ++ [P] ∧
+      (∃ F, ∀ f, F ≤ f → evalCH ms csubs f σ (.call name args ret params) = .ok (.bv ret.width xC, σ)) ∧
+      (∃ F, ∀ f, F ≤ f → execIL ms subs f (.seqn [P.exec, P.setTmp]) σ = .ok σ') ∧
+      Sim ms σ' ce ret (.bv ret.width xC) ∧
+      CallPost subs fB body P.tmp σ σ σ' :=
+  call_sim_builtin hcfg hc hp hargs hvs hsub hbody hret hcsub hb hw hval hnew hwr hmem hst
+
+/-- non-vacuity of **C08.6a**, and an end-to-end instance: `clz32(a)` in `σ0` against the transcribed body.  The
+    register/memory hypotheses are discharged by the frame lemma. -/
+theorem clz32_call_correct :
+    ∃ (ce : CE) (st' : HSt) (P : Pend) (rest : List Pend) (σ' : MState) (xC : BitVec 32),
+      compileExprH envF st0 (.call "clz32" [.var "a" u32] u32 [u32]) = .ok (ce, st') ∧
+      st'.pending = rest ++ [P] ∧
+      (∃ F, ∀ f, F ≤ f → evalCH noMacros [] f σ0 (.call "clz32" [.var "a" u32] u32 [u32]) = .ok (.bv 32 xC, σ0)) ∧
+      (∃ F, ∀ f, F ≤ f → execIL noMacros wSubs f (.seqn [P.exec, P.setTmp]) σ0 = .ok σ') ∧
+      Sim noMacros σ' ce u32 (.bv 32 xC) ∧ xC = 15 := by
+  have hc := compileExprH_call_of (env := envF) (name := "clz32") (ret := u32)
+    (show compileArgsH envF st0 [.var "a" u32] [u32] = .ok ([.varl "a"], st0) from rfl)
+  obtain ⟨σb, hbody⟩ := isOk_elim (x := execIL noMacros wSubs 19 clz32Body
+    { σ0 with params := ["t"].zip [.bv 32 0x00010000] }) (by decide +kernel)
+  have hret : lookupS "ret_val" σb.locals = some (.bv 64 15) := by
+    have : finalLocal "ret_val" (execIL noMacros wSubs 19 clz32Body
+      { σ0 with params := ["t"].zip [.bv 32 0x00010000] }) = some (.bv 64 15) := by decide +kernel
+    rw [hbody] at this; exact this
+  have fr := execIL_frame hbody
+  have hregs : ∀ k, Res.reg k ∉ writes wSubs 19 clz32Body := by
+    intro k hk
+    have : k ∈ writtenRegs wSubs 19 clz32Body := mem_writtenRegs.mpr hk
+    rw [show writtenRegs wSubs 19 clz32Body = [] by decide +kernel] at this
+    simp at this
+  have hmem : Res.mem ∉ writes wSubs 19 clz32Body :=
+    storesMem_false.mp (by decide +kernel)
+  obtain ⟨P, rest, σ', xC, h1, h2, h3, h4, _⟩ :=
+    call_correct_builtin (ms := noMacros) (csubs := []) (subs := wSubs) (σ := σ0) (v := .bv 32 15) rfl hc (by decide)
+      argsOK_a rfl rfl hbody hret rfl (by decide +kernel) (by decide) (by decide)
+      (funext fun k => (fr.regs k (hregs k)).1) (funext fun k => (fr.regs k (hregs k)).2)
+      (fr.mem hmem).1 (fr.mem hmem).2
+  refine ⟨_, _, P, rest, σ', xC, hc, h1, h2, h3, h4, ?_⟩
+  -- the C value is determined: 15
+  obtain ⟨F, hF⟩ := h2
+  have hx := hF (F + 3) (by omega)
+  have hx' : evalCH noMacros [] (F + 2 + 1) σ0 (.call "clz32" [.var "a" u32] u32 [u32]) =
+      .ok (.bv 32 (BitVec.ofNat 32 (natOfVal (.bv 32 15))), σ0) :=
+    evalCH_call_builtin (vs := [.bv 32 0x00010000]) (by rw [evalCHArgs, evalCH]; rfl) rfl (by decide +kernel)
+  rw [hx'] at hx
+  injection hx with hx; injection hx with hx _; injection hx with _ hx
+  rw [← hx]; decide
+
+/-- **C08.6b** (stretch) the same for a generated routine with a C body: the hypothesis is that the compiled body
+    simulates the C body (same registers and memory, `ret_val` converts to the C return value). -/
+theorem call_correct_sub {ms : MacroSem} {csubs : CSubEnv} {subs : SubEnv} {env : CEnv} {σ σb σr : MState} {st st' : HSt}
+    {name : String} {args : List CExpr} {ret : CT} {params : List CT} {ce : CE} {vCs vs : List Val}
+    {ps : List String} {body : ILEffect} {fB : Nat} {r : BitVec 64} {sub : CSub} {xC : BitVec ret.width}
+    (hcfg : env.cfg = Cfg.fixed)
+    (hc : compileExprH env st (.call name args ret params) = .ok (ce, st'))
+    (hp : ∀ p ∈ params, p.width ≠ 1)
+    (hargs : ArgsOK ms csubs env σ args vCs)
+    (hvs : convArgs args params vCs = .ok vs)
+    (hsub : lookupS name subs = some (ps, body))
+    (hbody : execIL ms subs fB body { σ with params := ps.zip vs } = .ok σb)
+    (hret : lookupS "ret_val" σb.locals = some (.bv 64 r))
+    (hcsub : lookupS name csubs = some sub)
+    (hCbody : ∃ F, ∀ f, F ≤ f →
+      execCHs ms csubs f sub.body { σ with locals := (sub.params.map (·.1)).zip vs } = .ok σr)
+    (hCret : lookupS "$ret" σr.locals = some (.bv ret.width xC))
+    (hval : convBits ⟨ret.signed, 64⟩ ret r = xC)
+    (hnew : σb.new = σr.new) (hwr : σb.written = σr.written) (hmem : σb.mem = σr.mem) (hst : σb.stores = σr.stores) :
+    ∃ (P : Pend) (rest : List Pend) (σ' σC : MState),
+      st'.pending = rest ++ [P] ∧
+      (∃ F, ∀ f, F ≤ f → evalCH ms csubs f σ (.call name args ret params) = .ok (.bv ret.width xC, σC)) ∧
+      (∃ F, ∀ f, F ≤ f → execIL ms subs f (.seqn [P.exec, P.setTmp]) σ = .ok σ') ∧
+      Sim ms σ' ce ret (.bv ret.width xC) ∧
+      CallPost subs fB body P.tmp σ σC σ' :=
+  call_sim_sub hcfg hc hp hargs hvs hsub hbody hret hcsub hCbody hCret hval hnew hwr hmem hst
+
+/-- a generated routine `uint32_t id32(uint32_t x) { return x; }`: C side and compiled body -/
+def idCSubs : CSubEnv := [("id32", { params := [("x", u32)], ret := u32, body := [.ret (.var "x" u32)] })]
+def idSubs : SubEnv := [("id32", (["x"], .setl "ret_val" (.cast 64 .bfalse (.param "x"))))]
+
+/-- non-vacuity of **C08.6b**, and an end-to-end instance: `id32(a)` in `σ0` -/
+theorem id32_call_correct :
+    ∃ (ce : CE) (st' : HSt) (P : Pend) (rest : List Pend) (σ' σC : MState),
+      compileExprH envF st0 (.call "id32" [.var "a" u32] u32 [u32]) = .ok (ce, st') ∧
+      st'.pending = rest ++ [P] ∧
+      (∃ F, ∀ f, F ≤ f →
+        evalCH noMacros idCSubs f σ0 (.call "id32" [.var "a" u32] u32 [u32]) = .ok (.bv 32 0x00010000, σC)) ∧
+      (∃ F, ∀ f, F ≤ f → execIL noMacros idSubs f (.seqn [P.exec, P.setTmp]) σ0 = .ok σ') ∧
+      Sim noMacros σ' ce u32 (.bv 32 0x00010000) := by
+  have hc := compileExprH_call_of (env := envF) (name := "id32") (ret := u32)
+    (show compileArgsH envF st0 [.var "a" u32] [u32] = .ok ([.varl "a"], st0) from rfl)
+  obtain ⟨σb, hbody⟩ := isOk_elim (x := execIL noMacros idSubs 1 (.setl "ret_val" (.cast 64 .bfalse (.param "x")))
+    { σ0 with params := ["x"].zip [.bv 32 0x00010000] }) (by decide +kernel)
+  have hret : lookupS "ret_val" σb.locals = some (.bv 64 0x00010000) := by
+    have : finalLocal "ret_val" (execIL noMacros idSubs 1 (.setl "ret_val" (.cast 64 .bfalse (.param "x")))
+      { σ0 with params := ["x"].zip [.bv 32 0x00010000] }) = some (.bv 64 0x00010000) := by decide +kernel
+    rw [hbody] at this; exact this
+  have fr := execIL_frame hbody
+  have hregs : ∀ k, Res.reg k ∉ writes idSubs 1 (.setl "ret_val" (.cast 64 .bfalse (.param "x"))) := by
+    intro k hk; simp [writes] at hk
+  have hmem : Res.mem ∉ writes idSubs 1 (.setl "ret_val" (.cast 64 .bfalse (.param "x"))) := by
+    intro hk; simp [writes] at hk
+  let σc : MState := { σ0 with locals := [("x", .bv 32 0x00010000)] }
+  have hCbody : ∃ F, ∀ f, F ≤ f → execCHs noMacros idCSubs f [.ret (.var "x" u32)]
+      { σ0 with locals := ([("x", u32)].map (·.1)).zip [.bv 32 0x00010000] } =
+      .ok { σc with locals := setLocal σc.locals "$ret" (.bv 32 0x00010000) } := by
+    refine ⟨3, fun f hf => ?_⟩
+    obtain ⟨k, rfl⟩ : ∃ k, f = k + 3 := ⟨f - 3, by omega⟩
+    rw [execCHs, execCH, evalCH]
+    rfl
+  obtain ⟨P, rest, σ', σC, h1, h2, h3, h4, _⟩ :=
+    call_correct_sub (ms := noMacros) (csubs := idCSubs) (subs := idSubs) (σ := σ0) (ret := u32)
+      (xC := 0x00010000) rfl hc (by decide)
+      (argsOK_var (t := u32) (x := 0x00010000) (n := "a") (by decide) ArgsOK.nil)
+      rfl rfl hbody hret rfl hCbody (by decide +kernel) (by decide +kernel)
+      (funext fun k => (fr.regs k (hregs k)).1) (funext fun k => (fr.regs k (hregs k)).2)
+      (fr.mem hmem).1 (fr.mem hmem).2
+  exact ⟨_, _, P, rest, σ', σC, hc, h1, h2, h3, h4⟩
+
+end C08
 end Rzil
